@@ -398,8 +398,11 @@ theorem total_createClass {mm : MM} (ht : mm.Total) (g : Graph) (par : Id) (attr
   cases ty with
   | none => exact ⟨d, by simp [createClass, Creator.classFor]⟩
   | some h =>
-    obtain ⟨c, hc⟩ := ht.2 h
-    exact ⟨c, by simp [createClass, Creator.classFor, hc]⟩
+    cases h with
+    | nil => exact ⟨d, by simp [createClass, Creator.classFor]⟩
+    | cons a t =>
+      obtain ⟨c, hc⟩ := ht.2 (a :: t)
+      exact ⟨c, by simp [createClass, Creator.classFor, hc]⟩
 
 /-- what a failing transition of the clean fragment looks like: an object description whose promise id
 is already bound is being created -/
